@@ -11,10 +11,10 @@ from syne_tune.backend.trial_status import Status
 
 def h_loop(sym, W=2, T=2, R=2, K=1, J=0, max_fail=0, tuner_max_failures=1, crit="finished", crit_n=None,
            asynchronous=True, without_delay=True, wait=False, props=("C01", "C02", "C12"), Z=1, P=10,
-           decisions=("CONTINUE", "PAUSE", "STOP"), checkpointing=True, max_pause=1, inject_max=0):
+           decisions=("CONTINUE", "PAUSE", "STOP"), checkpointing=True, max_pause=1, inject_max=0, stop_lag=0):
     from syne_tune import StoppingCriterion
     mon = Monitor(sym, W, props)
-    be = ScriptBackend(sym, mon, R=R, K=K, J=J, max_fail=max_fail, Z=Z, P=P, checkpointing=checkpointing)
+    be = ScriptBackend(sym, mon, R=R, K=K, J=J, max_fail=max_fail, Z=Z, P=P, checkpointing=checkpointing, stop_lag=stop_lag)
     sch = NDS(sym, mon, T, decisions=decisions, max_pause=max_pause)
     if inject_max:
         sch.inject_at = 1 + sym.choice("inject_at", inject_max)
@@ -64,6 +64,9 @@ def h_loop(sym, W=2, T=2, R=2, K=1, J=0, max_fail=0, tuner_max_failures=1, crit=
                   "status says %s, monitor %s (completed before STOP seen: %s)" % (ts.num_trials_completed, st, sorted(mon.completed_view)))
         n_failed = sum(1 for s in st.values() if s == "failed")
         sym.check(ts.num_trials_failed == n_failed, "C12.counter-failed", "status says %s, monitor %s" % (ts.num_trials_failed, st))
+        # C13: every failure a poll showed to the loop was passed on to the scheduler (once; the double notification of F9 is C01's business)
+        for t in sorted(be.seen_failed):
+            sym.check(st.get(t) == "failed", "C13.failure-not-notified", "trial %d was reported as failed by a poll, but the scheduler never got on_trial_error (monitor state: %s)" % (t, st.get(t)))
         if err is not None:
             sym.check(n_failed > tuner_max_failures, "C12.spurious-error", repr(err))
             named = [t for t in st if ("Trial - %d failed" % t) in str(err)]
@@ -105,11 +108,15 @@ def obligations(tier, props=("C01", "C02", "C12"), prefix="C01", J=0, fail=1):
     for (W, T, R, K, asy, wd) in cells:
         p = dict(W=W, T=T, R=R, K=K, J=J, max_fail=fail, asynchronous=asy, without_delay=wd, props=list(props), crit="finished",
                  crit_n=T, P=10 if quick else 14, Z=0 if quick else 1)
+        if not wd:
+            # start_jobs_without_delay=False promises never to exceed n_workers even while stopped jobs are still shutting down
+            p.update(stop_lag=2, T=T + 2, crit_n=T + 2, decisions=["STOP"], max_fail=0)
         name = "%s.a[W=%d,T=%d,R=%d,K=%d%s%s]" % (prefix, W, T, R, K, "" if asy else ",sync", "" if wd else ",ask-backend")
         obs.append(Ob(name, "props.c01:h_loop", p,
                       bounds=dict(W=W, T=T, R=R, K=K, J=J, failures="<=%d" % fail, polls="<=%d" % p["P"], empty_polls_in_a_row=p["Z"], pauses_per_trial="<=1", criterion="max_num_trials_finished=T"),
-                      goals=("end", "failure", "complete") + (("resume",) if R * T > 1 else ()),
-                      split=(("k_p2_t0", (0, 1, 2)[:K + 1]), ("end_p2_t0", (0, 1, 2)), ("dec_3", (0, 1, 2)), ("dec_4", (0, 1, 2))),
+                      goals=(("end", "failure", "complete") + (("resume",) if R * T > 1 else ())) if wd else ("end", "stopping-job-still-busy"),
+                      split=((("k_p2_t0", (0, 1, 2)[:K + 1]), ("end_p2_t0", (0, 1, 2)), ("dec_3", (0, 1, 2)), ("dec_4", (0, 1, 2))) if wd else
+                             (("k_p2_t0", (0, 1)), ("k_p2_t1", (0, 1)), ("stoplag_0", (0, 1)), ("stoplag_1", (0, 1)))),
                       budget_s=2400, may_be_incomplete=not quick))
     return obs
 
@@ -118,10 +125,10 @@ def failure_obligations(tier):
     """C13(c): tuner level max_failures handling"""
     obs = []
     for mf in (0, 1):
-        p = dict(W=2, T=2, R=1, K=1, max_fail=2, tuner_max_failures=mf, props=["C12"], crit="finished", crit_n=2)
+        p = dict(W=2, T=2, R=1, K=1, max_fail=mf + 1, tuner_max_failures=mf, props=["C12"], crit="finished", crit_n=2, Z=0)
         obs.append(Ob("C13.c[tuner,max_failures=%d]" % mf, "props.c01:h_loop", p,
-                      bounds=dict(W=2, T=2, R=1, K=1, failures="<=2", max_failures=mf),
-                      goals=("end", "failure") + (("failure-limit",) if mf < 2 else ()),
+                      bounds=dict(W=2, T=2, R=1, K=1, failures="<=%d" % (mf + 1), max_failures=mf),
+                      goals=("end", "failure", "failure-limit"),
                       split=(("dec_3", (0, 1, 2)),), budget_s=1200))
     return obs
 
